@@ -15,6 +15,7 @@ import (
 	"github.com/aws/aws-sdk-go/service/dynamodb/dynamodbiface"
 	"github.com/truora/minidyn/core"
 	"github.com/truora/minidyn/interpreter"
+	"github.com/truora/minidyn/interpreter/language"
 	coretypes "github.com/truora/minidyn/types"
 	"github.com/truora/minidyn/verifhook"
 )
@@ -419,6 +420,10 @@ func (fd *Client) getItem(input *dynamodb.GetItemInput) (*dynamodb.GetItemOutput
 		return nil, err
 	}
 
+	if err := validateProjectionExpression(input.ProjectionExpression); err != nil {
+		return nil, err
+	}
+
 	table, err := fd.getTable(aws.StringValue(input.TableName))
 	if err != nil {
 		return nil, err
@@ -458,6 +463,10 @@ func (fd *Client) Query(input *dynamodb.QueryInput) (*dynamodb.QueryOutput, erro
 
 	err := validateExpressionAttributes(input.ExpressionAttributeNames, input.ExpressionAttributeValues, aws.StringValue(input.KeyConditionExpression), aws.StringValue(input.FilterExpression), aws.StringValue(input.ProjectionExpression))
 	if err != nil {
+		return nil, err
+	}
+
+	if err := validateProjectionExpression(input.ProjectionExpression); err != nil {
 		return nil, err
 	}
 
@@ -517,6 +526,10 @@ func (fd *Client) Scan(input *dynamodb.ScanInput) (*dynamodb.ScanOutput, error) 
 
 	err := validateExpressionAttributes(input.ExpressionAttributeNames, input.ExpressionAttributeValues, aws.StringValue(input.ProjectionExpression), aws.StringValue(input.FilterExpression))
 	if err != nil {
+		return nil, err
+	}
+
+	if err := validateProjectionExpression(input.ProjectionExpression); err != nil {
 		return nil, err
 	}
 
@@ -756,6 +769,19 @@ func (fd *Client) getTable(tableName string) (*core.Table, error) {
 	}
 
 	return table, nil
+}
+
+// validateProjectionExpression refuses a projection that is not a list of document paths
+func validateProjectionExpression(expression *string) error {
+	if strings.TrimSpace(aws.StringValue(expression)) == "" {
+		return nil
+	}
+
+	if err := language.CheckProjectionExpression(aws.StringValue(expression)); err != nil {
+		return awserr.New("ValidationException", "Invalid ProjectionExpression: "+err.Error(), nil)
+	}
+
+	return nil
 }
 
 func validateExpressionAttributes(exprNames map[string]*string, exprValues map[string]*dynamodb.AttributeValue, genericExpressions ...string) error {
